@@ -9,14 +9,15 @@ from .. import cases, monitors
 from . import _align_common as ac
 
 TITLE = "Computations never modify their inputs; derived continua are independent"
-DECIDING = ["M-PURE", "M-INDEPENDENT"]
+DECIDING = ["M-PURE", "M-INDEPENDENT", "M-PURE-AFTER-FAILURE", "M-PURE-SHARED-COMPONENT"]
 LEVEL = "exploration"
 RULE = ("a case = one random labelled continuum + one pooled dissimilarity; every public computation entry point is "
         "called on it (best / soft / fast alignment, candidate enumeration, compute_gamma in the three modes with both "
         "samplers and ground-truth subsets, measure_best_window_size, Alignment / UnitaryAlignment compute_disorder, "
         "gamma_k_disorder, GammaResults.gamma / gamma_cat / gamma_k, sampler init + draws, CorpusShufflingTool "
         "constructor (with extra categories), corpus_from_reference, each *_shuffle, corpus_shuffle, copy, merge, +, "
-        "__getitem__, ==, iteration, to_csv) between snapshots (annotators, units, categories, bounds, window size) of "
+        "__getitem__, ==, iteration, to_csv; computations that fail part-way on a unit with an unknown label; computations "
+        "with one of two combined dissimilarities that share a component object) between snapshots (annotators, units, categories, bounds, window size) of "
         "every continuum argument and (delta_empty, alpha, beta, categories, matrix bytes, kernel identity, components) "
         "of the dissimilarity; then each derived continuum (copy, merge result, + result, sampler outputs, chance "
         "samples of a gamma, generated corpora, c[annotator]) and the source are mutated in turn by a random script "
@@ -42,8 +43,9 @@ def snap(c):
 class Pure:
     """Snapshot wrapper around one entry-point call."""
 
-    def __init__(self, ctx, name, continua=(), dissims=(), allow_window=False):
+    def __init__(self, ctx, name, continua=(), dissims=(), allow_window=False, may_raise=False):
         self.ctx, self.name, self.continua, self.dissims, self.allow_window = ctx, name, list(continua), list(dissims), allow_window
+        self.may_raise = may_raise
 
     def __enter__(self):
         self.before_c = [snap(c) for c in self.continua]
@@ -65,6 +67,9 @@ class Pure:
             if d:
                 self.ctx.fail(f"dissimilarity-modified-by:{self.name}", {"diff": d[:4]}, monitor="M-PURE")
         if et is not None and issubclass(et, Exception):
+            if self.may_raise:
+                self.ctx.observe("computation_that_fails_midway", f"{self.name}:{et.__name__}")
+                return True
             self.ctx.fail(f"entry-point-raises:{self.name}:{et.__name__}", {"message": str(ev)[:300]}, monitor="M-PURE")
             return True
         return False
@@ -211,6 +216,33 @@ def check_case(ctx, case):
             sample = sampler.sample_from_continuum
         if sample is not None:
             independence(ctx, rng, c, sample, f"sample[{kind}]")
+    # ---- a computation that FAILS part-way (a late unit carries a label the dissimilarity does not know) must leave its
+    # input exactly as it was, too
+    if case.get("poisoned"):
+        pc = cases.build_continuum(case["poisoned"]["continuum"])
+        pd = pool.get(case["poisoned"]["dissim"])
+        ctx.count("M-PURE-AFTER-FAILURE")
+        for name, fn in (("get_fast_alignment[fails]", lambda: pc.get_fast_alignment(pd, 1)),
+                         ("get_best_alignment[fails]", lambda: pc.get_best_alignment(pd)),
+                         ("get_best_soft_alignment[fails]", lambda: pc.get_best_soft_alignment(pd)),
+                         ("compute_gamma[fast,fails]", lambda: pc.compute_gamma(pd, n_samples=2, fast=True, sampler=pa.ShuffleContinuumSampler()))):
+            with P(name, continua=[pc], dissims=[pd], may_raise=True, allow_window=True):
+                fn()
+    # ---- one component object shared by two combined dissimilarities with different delta_empty (the second constructor
+    # re-parameterises the component - documented); COMPUTING with either must not touch the component or the other one
+    if case.get("shared_component"):
+        sc = case["shared_component"]
+        comp = cases.build_dissim(sc["component"])
+        d_a = pa.CombinedCategoricalDissimilarity(alpha=1.0, beta=1.0, delta_empty=sc["delta_a"], cat_dissim=comp)
+        d_b = pa.CombinedCategoricalDissimilarity(alpha=2.0, beta=0.5, delta_empty=sc["delta_b"], cat_dissim=comp)
+        sc_cont = cases.build_continuum(sc["continuum"])
+        ctx.count("M-PURE-SHARED-COMPONENT")
+        for name, fn in (("valid_alignments[shared component]", lambda: d_a.valid_alignments(sc_cont)),
+                         ("get_best_alignment[shared component]", lambda: sc_cont.get_best_alignment(d_a)),
+                         ("compute_disorder[shared component]", lambda: sc_cont.get_best_alignment(d_b).compute_disorder(d_a)),
+                         ("compute_gamma[shared component]", lambda: sc_cont.compute_gamma(d_a, n_samples=2))):
+            with P(name, continua=[sc_cont], dissims=[d_a, d_b, comp]):
+                fn()
     # ---- copy / merge / + / getitem / misc
     other = cases.build_continuum(case["other"])
     with P("copy", dissims=[]):
@@ -289,8 +321,25 @@ def gen_case(ctx, dspecs):
     windowable = None
     if rng.random() < 0.25:
         windowable = cases.gen_continuum(rng, n_annot=4, sizes=[14] * 4, family="grid", labels=cases.LABELS_SMALL)
+    poisoned = None
+    if rng.random() < 0.5:
+        pcats = ["Adj", "Det", "N"]
+        pcs = cases.gen_continuum(rng, n_annot=rng.randint(2, 3), sizes=None, max_units=5, allow_empty=False, labels=pcats,
+                                  family=rng.choice(["touching", "grid", "longoverlap"]))
+        last = max(u[1] for us in pcs["ann"].values() for u in us)
+        victim = rng.choice(sorted(pcs["ann"].keys()))
+        pcs["ann"][victim].append([last + 5.0, last + 7.0, "UNKNOWN-LABEL"])       # reached only in a late window
+        poisoned = {"continuum": pcs, "dissim": {"kind": "precomputed", "cats": pcats, "delta": 1.0,
+                                                 "matrix": [[0.0, 0.5, 1.0], [0.5, 0.0, 0.25], [1.0, 0.25, 0.0]]}}
+    shared = None
+    if rng.random() < 0.5:
+        comp = cases.gen_dissim(rng, ["precomputed", "levenshtein", "ordinal", "absolute"])
+        da, db = rng.sample([0.5, 1.0, 2.0, 3.7], 2)
+        shared = {"component": comp, "delta_a": da, "delta_b": db,
+                  "continuum": cases.gen_continuum(rng, n_annot=2, max_units=4, allow_empty=False,
+                                                   labels=cases.dissim_labels(comp) or cases.LABELS_SMALL)}
     return {"continuum": cspec, "dissim": dspec, "other": other, "reference": ref, "window": rng.randint(1, 4),
-            "windowable": windowable,
+            "windowable": windowable, "poisoned": poisoned, "shared_component": shared,
             "magnitude": rng.choice([0.0, 0.3, 0.7, 1.0]), "cst_annotators": rng.choice([2, 3, ["p", "q"]]),
             "extra_categories": rng.choice([None, ["extra-cat"], ["x1", "x2"]]), "np_seed": rng.randrange(2 ** 31)}
 
